@@ -250,6 +250,8 @@ typedef struct ctx {
 typedef int step_fn(ctx_t *c, int a, int b);
 #define F_NOCB	1	/* the call has no error callback to look at */
 #define F_INSERT 2	/* vnaproperty_set with an inserting subscript */
+#define F_KEEPS 4	/* the objects the caller holds (calibrations by index)
+			   must be as usable after the failed call as before */
 typedef struct step {
     step_fn *fn;
     int a, b;
@@ -268,6 +270,8 @@ typedef struct hist {
     long K;	/* libvna-site allocations of the unfaulted run */
     long Ky;	/* libyaml-site allocations of the unfaulted run */
     obs_t ref;
+    struct obs_packed *pre[MAXSTEPS];	/* library state before each step of
+					   the unfaulted run (light observe) */
 } hist_t;
 
 #define MAXH 64
@@ -474,15 +478,16 @@ static int s_solve(ctx_t *c, int a, int b)
 }
 
 static const char *const cal_names[] = { "cal-A", "second one", "cal-A",
-    "third" };
+    "third", "third" };
 
 static int s_add_cal(ctx_t *c, int a, int b)
 {
     int rc = vnacal_add_calibration(c->vcp, cal_names[b], c->vnp[a]);
-    c->addrc[b] = rc;
+    int k = b == 4 ? 3 : b;	/* 4: "third" once more */
+    c->addrc[k] = rc;
     /* which slot it went to is C16's subject: look the index up by name */
     if (rc >= 0)
-	c->ci[b] = vnacal_find_calibration(c->vcp, cal_names[b]);
+	c->ci[k] = vnacal_find_calibration(c->vcp, cal_names[b]);
     return HND(rc);
 }
 
@@ -1143,6 +1148,56 @@ static void obs_vnacal(ctx_t *c, obs_t *o, vnacal_t *vcp, int which)
 
 static int g_observe_light;	/* getters only: nothing is saved */
 
+typedef struct obs_packed {
+    int nd;
+    long nx;
+    uint64_t h;
+    int overflow;
+    double d[];
+} obs_packed;
+
+static obs_packed *obs_pack(const obs_t *o)
+{
+    obs_packed *q = malloc(sizeof(*q) + (size_t)o->nd * sizeof(double));
+    if (q == NULL)
+	abort();
+    q->nd = o->nd; q->nx = o->nx; q->h = o->h; q->overflow = o->overflow;
+    memcpy(q->d, o->d, (size_t)o->nd * sizeof(double));
+    return q;
+}
+
+/* 0 when the library state in *o equals the packed one */
+static int obs_cmp_packed(const obs_packed *a, const obs_t *b, char *why,
+	size_t n)
+{
+    if (a->overflow || b->overflow)
+	return 0;	/* nothing can be said */
+    if (a->nd != b->nd || a->nx != b->nx) {
+	snprintf(why, n, "the shape of the observable state changed: %d "
+		"numbers/%ld exact items before the call, %d/%ld after it",
+		a->nd, a->nx, b->nd, b->nx);
+	return 1;
+    }
+    for (int i = 0; i < a->nd; ++i) {
+	double x = a->d[i], y = b->d[i];
+	if ((isnan(x) && isnan(y)) || x == y)
+	    continue;
+	double m = fmax(1.0, fmax(fabs(x), fabs(y)));
+	if (!(fabs(x - y) <= 1e-9 * m)) {
+	    snprintf(why, n, "number #%d of the observable state was %.12g "
+		    "before the call and is %.12g after it", i, x, y);
+	    return 1;
+	}
+    }
+    if (a->h != b->h) {
+	snprintf(why, n, "the exact part (names, counts, handles, text) of "
+		"the observable state changed");
+	return 1;
+    }
+    return 0;
+}
+static int g_record_pre;
+
 static void observe(ctx_t *c, obs_t *o)
 {
     const hist_t *h = c->h;
@@ -1158,16 +1213,19 @@ static void observe(ctx_t *c, obs_t *o)
 		    obs_c(o, vnacal_get_parameter_value(c->vcp, p->handle,
 				c->sc.vna.f[f]));
 	}
-	for (int i = 0; i < 4; ++i) {
+	/* the driver's own notes of what calls returned are not part of the
+	   "library state only" observation */
+	for (int i = 0; i < 4 && !g_observe_light; ++i) {
 	    obs_i(o, c->ci[i]);
 	    obs_i(o, c->addrc[i]);
 	}
-	for (int i = 0; i < c->sc.nparam; ++i) {
+	for (int i = 0; i < c->sc.nparam && !g_observe_light; ++i) {
 	    for (int f = 0; f < c->sc.vna.nf; ++f)
 		obs_c(o, c->pv[i][f]);
 	    obs_i(o, c->reuse[i]);
 	}
-	obs_s(o, c->got[0]);
+	if (!g_observe_light)
+	    obs_s(o, c->got[0]);
 	obs_vnacal(c, o, c->vcp, 0);
 	obs_vnacal(c, o, c->vcp2, 1);
 	obs_vnadata(o, c->vd[0]);
@@ -1180,9 +1238,9 @@ static void observe(ctx_t *c, obs_t *o)
 		    obs_c(o, vnacal_get_parameter_value(c->vcp, c->ph[i],
 				pf_lo + (pf_hi - pf_lo) * (0.03 + 0.235 * k)));
 	}
-	for (int i = 0; i < 8; ++i)
+	for (int i = 0; i < 8 && !g_observe_light; ++i)
 	    obs_c(o, c->getc[i]);
-	for (int i = 0; i < NPH; ++i) {
+	for (int i = 0; i < NPH && !g_observe_light; ++i) {
 	    obs_i(o, c->reuse[i]);
 	    for (int k = 0; k < 5; ++k)
 		obs_c(o, c->ppv[i][k]);
@@ -1199,7 +1257,7 @@ static void observe(ctx_t *c, obs_t *o)
 	    obs_file(o, path);
 	    unlink(path);
 	}
-	for (int i = 0; i < 8; ++i) {
+	for (int i = 0; i < 8 && !g_observe_light; ++i) {
 	    obs_s(o, c->got[i]);
 	    obs_i(o, c->geti[i]);
 	}
@@ -1221,7 +1279,9 @@ static void observe(ctx_t *c, obs_t *o)
 		}
 	    }
 	}
-	for (size_t i = 0; i < sizeof(dfile_tab) / sizeof(dfile_tab[0]); ++i)
+	/* files are not objects: a save that fails may leave any file */
+	for (size_t i = 0; i < sizeof(dfile_tab) / sizeof(dfile_tab[0]) &&
+		!g_observe_light; ++i)
 	    obs_file(o, scratch(dfile_tab[i]));
 	break;
     }
@@ -1464,12 +1524,16 @@ static void cal_hist(vnacal_type_t type, int rows, int cols, int nf,
 	ADDN(h, s_cal_prop, 1, 1, "vnacal_property_set");
 	ADDN(h, s_cal_prop, 1, 2, "vnacal_property_set");
 	ADD(h, s_solve, 0, 0, "vnacal_new_solve");	    /* solve again */
-	ADD(h, s_add_cal, 0, 2, "vnacal_add_calibration");  /* replace */
+	add(h, s_add_cal, 0, 2, "vnacal_add_calibration", F_KEEPS);  /* replace */
 	ADDN(h, s_cal_prop_get, 1, 0, "vnacal_property_get");
 	ADDN(h, s_cal_prop, 1, 3, "vnacal_property_delete");
 	ADD(h, s_solve, 0, 0, "vnacal_new_solve");
 	ADD(h, s_add_cal, 0, 3, "vnacal_add_calibration");
 	ADD(h, s_del_cal, 1, 0, "vnacal_delete_calibration");
+	/* replace again, now with a free slot below the replaced one: a
+	   repetition that does not find the name any more lands there */
+	ADD(h, s_solve, 0, 0, "vnacal_new_solve");
+	add(h, s_add_cal, 0, 4, "vnacal_add_calibration", F_KEEPS);
 	ADD(h, s_free_new, 0, 0, "vnacal_new_free");
 	ADD(h, s_save, 1, 0, "vnacal_save");
 	ADD(h, s_load, 1, 0, "vnacal_load");
@@ -1985,6 +2049,17 @@ static int run_history(hist_t *h, long k1, long k2, obs_t *o, runinfo_t *ri,
 	const step_t *st = &h->st[s];
 	int attempts = 0;
 
+	if (g_record_pre && h->pre[s] == NULL) {
+	    static obs_t pre_obs;
+	    long save_calls = vf_alloc_calls;
+	    int save_failed = vf_alloc_failed;
+	    g_observe_light = 1;
+	    observe(c, &pre_obs);
+	    g_observe_light = 0;
+	    vf_alloc_calls = save_calls;
+	    vf_alloc_failed = save_failed;
+	    h->pre[s] = obs_pack(&pre_obs);
+	}
 	for (;;) {
 	    int before = vf_alloc_failed;
 	    long calls0 = vf_alloc_calls;
@@ -2112,6 +2187,25 @@ static int run_history(hist_t *h, long k1, long k2, obs_t *o, runinfo_t *ri,
 		vf_alloc_failed = save_failed;
 		vf_alloc_fail_at = f1;
 		vf_alloc_fail_at2 = f2;
+		/*
+		 * "all objects remain usable": for calls that take nothing
+		 * away when they succeed (vnacal_add_calibration: the old
+		 * calibration of that name is usable until the new one has
+		 * replaced it), what the getters say after the failed call
+		 * is what they said before it, i.e. the state the unfaulted
+		 * run had before this step.  Calls that work in stages
+		 * (load, convert, import, solve) may leave the destination
+		 * changed; they are judged by the repetition only.
+		 */
+		if (h->pre[s] != NULL && (st->flags & F_KEEPS) &&
+			obs_cmp_packed(h->pre[s], &scratch_obs, g_why,
+			    sizeof(g_why)) != 0) {
+		    snprintf(sig, sizeof(sig), "state-after-failed-call:%s",
+			    st->name);
+		    vf_fail(r, sig, "step %d (%s) failed with ENOMEM and left "
+			    "the objects changed: %s", s, st->name, g_why);
+		    goto out;
+		}
 	    }
 	    if (++attempts > 3) {
 		snprintf(sig, sizeof(sig), "retry-failed:%s", st->name);
@@ -2174,7 +2268,10 @@ static void init(int tier)
 	runinfo_t ri;
 	int save = vf_verbose;
 	vf_verbose = 0;
-	if (run_history(h, 0, 0, &h->ref, &ri, r) != 0 ||
+	g_record_pre = 1;
+	int rh = run_history(h, 0, 0, &h->ref, &ri, r);
+	g_record_pre = 0;
+	if (rh != 0 ||
 		r->status == VF_VIOL) {
 	    /* a history that does not run clean unfaulted: K = 0, the k = 0
 	       case reports it */
